@@ -144,6 +144,27 @@ def run_grid(case, seed, R):
             g = R.call(coordinates.make_xy_grid, (n0, n1), dx=dx, grid=True)
             if g is not FAILED:
                 R.expect_close(g[0], X, 4 * eps * np.abs(X), sig + ':after-edit', 'make_xy_grid after a caller edited earlier coordinates in place')
+        # ... and so are the coordinates of a COPY: grids built (x, y, r, t, slices), copy taken, the copy's grids re-centred in place
+        # (what Interferogram.copy().crop().recenter() does): the original still has its zero at n//2
+        for pre in (('x', 'y'), ('r', 't'), ()):
+            o = RichData(np.zeros((n0, n1)), dx, 0.5)
+            for a_ in pre:
+                getattr(o, a_)
+            if not pre:
+                R.call(o.slices, sig='RichData.slices:exception', hygiene=False)
+            c2 = R.call(o.copy, sig='RichData.copy:exception', hygiene=False)
+            if c2 is FAILED:
+                continue
+            try:
+                for a_ in ('x', 'y', 'r', 't'):
+                    v = getattr(c2, a_)
+                    v += 2.5 * dx
+            except Exception:   # noqa
+                pass
+            R.expect_close(R.call(lambda: o.x), X, 4 * eps * np.abs(X), 'RichData.x:shared-with-copy', f'x of the original after its copy\'s coordinates were shifted in place (grids read before the copy: {pre})')
+            R.expect_close(R.call(lambda: o.y), Y, 4 * eps * np.abs(Y), 'RichData.y:shared-with-copy', f'y of the original after its copy\'s coordinates were shifted in place (grids read before the copy: {pre})')
+            rr = R.call(lambda: o.r)
+            R.expect_close(rr, np.hypot(X, Y), 8 * eps * (np.abs(X) + np.abs(Y)), 'RichData.r:shared-with-copy', 'r of the original after its copy\'s coordinates were shifted in place')
         R.outcome('grid')
     finally:
         config.precision = 64
